@@ -789,7 +789,10 @@ impl<'u> Tr<'u> {
                     _ => return self.err(sp, "`split_once` with a pattern other than a printable ASCII character literal"),
                 };
                 let h = self.ensure_str_split_once();
-                let lit = if c == '"' { "\"\"\"\"%char".to_owned() } else { format!("\"{c}\"%char") };
+                // (the constructor of Coq's ascii, least significant bit first: independent of notation scopes)
+                let code = c as u32;
+                let bits: Vec<&str> = (0..8).map(|i| if (code >> i) & 1 == 1 { "true" } else { "false" }).collect();
+                let lit = format!("(Ascii.Ascii {})", bits.join(" "));
                 Ok((app(&h, vec![raw(lit), recv]), Ty::Option(Box::new(Ty::Tuple(vec![Ty::Str, Ty::Str])))))
             }
             (Ty::Option(_), "is_some", 0) => Ok((
